@@ -25,6 +25,8 @@ MANIFEST = dict(
 SHAPED = (["kind:" + k for k in enumgen.KIND_NAMES] +
           ["iota", "offset", "shift", "explicit", "multi", "lin", "hex", "carried", "placeholder", "multi-block", "multi-file",
            "prefixed", "unprefixed", "accidental-prefix", "distractor"])
+VARIANTS = ["local-harm", "local-harm", "local-ok", "local-ok", "nonident-carry", "nonident-carry", "nonident-paren", "nonident-paren",
+            "nonident-ok", "nonident-ok"]
 REGION_SHAPES = ["neg"] * 6 + ["big"] * 4 + ["dupval"] * 3 + ["dupname"] * 3 + ["typedexpr"] * 2 + ["empty"]
 
 
@@ -87,7 +89,7 @@ def make_case(ctx, cid, en, batch=None):
             "runs": [{"args": ["enum", "-type=" + T]}],
             "oracle": {".": enumgen.oracle_c04(en, decl, win)} if decl else {},
             "sexp": enumgen.case_sexp(cid, "c04", en, extra), "cmd": "shoot enum -type=" + T,
-            "variants": variants, "shape": cl}
+            "variants": variants, "shape": en.get("shape") if en.get("shape") in VARIANTS else cl}
 
     def post(b, c, r):
         rel, gen = enumgen.generated_file(r["written"])
@@ -151,10 +153,15 @@ def gen_cases(ctx):
         ens.append(g.enum("wf", f))
     for sh in REGION_SHAPES:
         ens.append(g.enum(sh))
+    for v in VARIANTS:
+        ens.append(g.variant(v))
     n = ctx.n(150, 2000) + len(enumgen.load_corpus(PROP))
     while len(ens) < n:
         r = ctx.rng.random()
         sh = "wf" if r < 0.8 else ctx.rng.choice(["neg", "neg", "big", "big", "dupval", "dupname", "typedexpr"])
+        if r > 0.94:
+            ens.append(g.variant(ctx.rng.choice(VARIANTS)))
+            continue
         ens.append(g.enum(sh, ctx.rng.choice(SHAPED) if ctx.rng.random() < 0.3 and sh == "wf" else None))
     nex = 0
     if not ctx.quick():
@@ -204,6 +211,8 @@ def run_cases(ctx, cases, name="mod"):
 
 
 def sig(c, region, dk, im, m):
+    if region in ("F_local_const", "F_nonident_type"):
+        return region
     kinds = sorted(set(k.split(":")[0] for k in dk))
     return "%s:%s" % (region, ",".join(kinds))
 
